@@ -92,7 +92,7 @@ class Ctx:
         self._vh[key] = out
         return out
 
-    def vh(self, args, tags="verif", race=False, timeout=3600, env=None, merge=True, allow_fail=False):
+    def vh(self, args, tags="verif", race=False, timeout=3600, env=None, merge=True, allow_fail=False, aslimit=None):
         """Run a harness command that writes a report to -out; returns the report."""
         binp = self.vh_bin(tags, race)
         out = os.path.join(self.scratch, "rep-%d.json" % (len(self.tlc_runs) * 1000 + int(time.time() * 1000) % 100000))
@@ -102,7 +102,11 @@ class Ctx:
             e.update(env)
         t = time.time()
         try:
-            p = subprocess.run([binp] + args + ["-out", out], env=e, capture_output=True, text=True, timeout=timeout)
+            pre = None
+            if aslimit:
+                import resource
+                pre = lambda: resource.setrlimit(resource.RLIMIT_AS, (aslimit, aslimit))
+            p = subprocess.run([binp] + args + ["-out", out], env=e, capture_output=True, text=True, timeout=timeout, preexec_fn=pre)
         except subprocess.TimeoutExpired:
             raise Infra("harness %s timed out after %ds" % (args[0], timeout))
         if p.returncode != 0 or not os.path.exists(out):
